@@ -8,7 +8,7 @@ git apply "$patch" || { echo "patch does not apply"; exit 2; }
 cd /verif
 VERIF_KEEP_EVIDENCE=1 ./vcheck run "$pid" --tier "$tier" > /tmp/try_seed.out 2>&1
 rc=$?
-git -C /repo checkout -- .
+git -C /repo apply -R "$patch" 2>/dev/null || git -C /repo checkout -- .   # (-R also removes files the change added)
 git -C /verif checkout -- evidence 2>/dev/null
 grep -E "VIOLATION|KNOWN-FINDING|signature=|tier=" /tmp/try_seed.out | head -12
 echo "rc=$rc"
